@@ -10,6 +10,14 @@ for seed in $(seq $1 $2); do
     rc=$?
     echo "seed=$seed $p rc=$rc $(echo "$out" | tail -1)" >> $LOG
     if [ $rc -ne 0 ]; then echo "$out" | grep -E "violation|VIOLATION|HARNESS|^  " | head -8 >> $LOG; fi
+    case $p in C04|C06|C14) ;; *)
+      out=$(VERIF_SEED=$seed /verif/.work/sweep/protosim_uniform check $p --scenarios 150000 --evidence /verif/.work/sweep/ev_u_$p.json 2>&1); rc=$?
+      echo "seed=$seed $p(uniform) rc=$rc $(echo "$out" | tail -1)" >> $LOG
+      if [ $rc -ne 0 ]; then echo "$out" | grep -E "violation|VIOLATION|HARNESS|^  " | head -8 >> $LOG; fi;;
+    esac
   done
+  out=$(VERIF_SEED=$seed /verif/.work/sweep/httpsim check --evidence /verif/.work/sweep/ev_C20.json 2>&1); rc=$?
+  echo "seed=$seed C20 rc=$rc $(echo "$out" | tail -1)" >> $LOG
+  if [ $rc -ne 0 ]; then echo "$out" | grep -E "violation|VIOLATION|HARNESS|^  " | head -8 >> $LOG; fi
 done
 echo DONE >> $LOG
